@@ -74,6 +74,8 @@ enum Mutator {
     TwoPushers,
     /// two threads swap overlapping pairs many times
     TwoSwappers,
+    /// nobody mutates: only readers run (two-list operations in both orders)
+    Nobody,
 }
 
 #[derive(Clone, Copy, Debug, PartialEq)]
@@ -92,10 +94,13 @@ enum Reader {
     ContainsMissingRust,
     ToVecRust,
     IsEmptyRust,
+    /// only with mutator Nobody (concat under concurrent mutation is known finding C16-F2)
+    ConcatAB,
+    ConcatBA,
 }
 
-const MUTATORS: [Mutator; 8] = [Mutator::PushRust, Mutator::PushScript, Mutator::PushTwice, Mutator::SwapEnds, Mutator::SwapScript, Mutator::CloneDropHandle, Mutator::TwoPushers, Mutator::TwoSwappers];
-const READERS: [Reader; 14] = [
+const MUTATORS: [Mutator; 9] = [Mutator::Nobody, Mutator::PushRust, Mutator::PushScript, Mutator::PushTwice, Mutator::SwapEnds, Mutator::SwapScript, Mutator::CloneDropHandle, Mutator::TwoPushers, Mutator::TwoSwappers];
+const READERS: [Reader; 16] = [
     Reader::EqRustAB,
     Reader::EqRustBA,
     Reader::EqScriptAB,
@@ -110,6 +115,8 @@ const READERS: [Reader; 14] = [
     Reader::ContainsMissingRust,
     Reader::ToVecRust,
     Reader::IsEmptyRust,
+    Reader::ConcatAB,
+    Reader::ConcatBA,
 ];
 
 struct Cfg {
@@ -124,8 +131,19 @@ fn decode(ctl: &[u8]) -> Cfg {
     let mut c = Choices::new(ctl);
     let n = [1usize, 2, 4, 8, 16, 64, 256, 1024][c.below(8)];
     let mutator = MUTATORS[c.below(MUTATORS.len())];
-    let nr = 1 + c.below(2);
-    let readers = (0..nr).map(|_| READERS[c.below(READERS.len())]).collect();
+    let nr = if mutator == Mutator::Nobody { 2 } else { 1 + c.below(2) };
+    let mut readers: Vec<Reader> = (0..nr).map(|_| READERS[c.below(READERS.len())]).collect();
+    for r in readers.iter_mut() {
+        if mutator != Mutator::Nobody && matches!(r, Reader::ConcatAB | Reader::ConcatBA) {
+            *r = Reader::LenRust;
+        }
+    }
+    if mutator == Mutator::Nobody {
+        // both orders at once
+        let pairs = [(Reader::ConcatAB, Reader::ConcatBA), (Reader::EqRustAB, Reader::EqRustBA), (Reader::EqScriptAB, Reader::EqScriptBA), (Reader::ConcatAB, Reader::EqRustBA)];
+        let (x, y) = pairs[c.below(pairs.len())];
+        readers = vec![x, y];
+    }
     let rounds = 4 + c.below(12);
     let eq_spin = [0u32, 0, 20, 200, 2000][c.below(5)];
     Cfg { n, mutator, readers, rounds, eq_spin }
@@ -200,7 +218,11 @@ pub fn run(fns: &Arc<StressFns>, ctl: &[u8], render: bool) -> Outcome {
         let blen0 = b.len();
         let last_tag = (cfg.n - 1) as i32;
         let g = Arc::new(AtomicUsize::new(0));
-        let n_mut = if matches!(cfg.mutator, Mutator::TwoPushers | Mutator::TwoSwappers) { 2 } else { 1 };
+        let n_mut = match cfg.mutator {
+            Mutator::TwoPushers | Mutator::TwoSwappers => 2,
+            Mutator::Nobody => 0,
+            _ => 1,
+        };
         let parties = n_mut + cfg.readers.len();
         let mut spans: Vec<(u128, u128)> = Vec::new();
         let mut errs: Vec<String> = Vec::new();
@@ -227,6 +249,7 @@ pub fn run(fns: &Arc<StressFns>, ctl: &[u8], render: bool) -> Outcome {
                             let c = a.clone();
                             drop(c);
                         }
+                        Mutator::Nobody => {}
                         Mutator::TwoPushers => {
                             drop(x2);
                             a.push(x1);
@@ -308,6 +331,14 @@ pub fn run(fns: &Arc<StressFns>, ctl: &[u8], render: bool) -> Outcome {
                         Reader::IsEmptyRust => {
                             if a.is_empty() && len0 > 0 { Err("is_empty() on a non-empty list".into()) } else { Ok(()) }
                         }
+                        Reader::ConcatAB => {
+                            let r = a.concat(&b);
+                            if r.len() == a.len() + b.len() { Ok(()) } else { Err(format!("a.concat(b) has {} elements", r.len())) }
+                        }
+                        Reader::ConcatBA => {
+                            let r = b.concat(&a);
+                            if r.len() == a.len() + b.len() { Ok(()) } else { Err(format!("b.concat(a) has {} elements", r.len())) }
+                        }
                     };
                     res.map(|_| (st, t0.elapsed().as_nanos())).map_err(|e| format!("{r:?}: {e}"))
                 }));
@@ -321,7 +352,7 @@ pub fn run(fns: &Arc<StressFns>, ctl: &[u8], render: bool) -> Outcome {
             }
         });
         crate::worker::take_panic();
-        if spans.len() >= 2 && spans[1..].iter().any(|r| r.0 < spans[0].1 && spans[0].0 < r.1) {
+        if spans.iter().enumerate().any(|(i, x)| spans.iter().enumerate().any(|(j, y)| i != j && x.0 < y.1 && y.0 < x.1)) {
             overlapped_rounds += 1;
         }
         // final state of a: the original elements (ends possibly swapped) followed by the pushed ones
